@@ -1965,6 +1965,17 @@ class DerivIntExchange(Rule):
         }
 
     def eval(self, e: Expr, ctx: Context) -> Expr:
+        # Leibniz rule: if the bounds depend on the variable of differentiation, boundary
+        # terms appear which this rule does not produce.
+        if e.is_deriv() and e.body.is_integral():
+            moving = e.var in e.body.lower.get_vars() | e.body.upper.get_vars()
+        elif e.is_integral() and e.body.is_deriv():
+            moving = e.body.var in e.lower.get_vars() | e.upper.get_vars()
+        else:
+            moving = False
+        if moving:
+            raise AssertionError("DerivIntExchange: bounds of the integral depend on the variable of differentiation")
+
         if e.is_deriv() and e.body.is_integral():
             return Integral(e.body.var, e.body.lower, e.body.upper, Deriv(e.var, e.body.body))
         elif e.is_deriv() and e.body.is_indefinite_integral():
